@@ -73,6 +73,29 @@ fn arbitrary_body(rng: &mut Rng, type_id: u8) -> Vec<u8> {
             }
             b
         }
+        7 if rng.chance(1, 3) => {
+            // many complete values whose declared count promises far more than is there: any
+            // allocation sized by the declared count shows up multiplied
+            let unit: &[u8] = match rng.below(4) {
+                0 => &[0x0A, 0xFF, 0xFF, 0xFF, 0xFF, 0x09],
+                1 => &[0x0A, 0x00, 0x10, 0x00, 0x00, 0x09],
+                2 => &[0x08, 0xFF, 0xFF, 0xFF, 0xFF, 0x00, 0x00, 0x09],
+                _ => &[0x0A, 0x7F, 0xFF, 0xFF, 0xFF, 0x09],
+            };
+            let n = rng.usize(500, 3000);
+            let mut b = Vec::with_capacity(unit.len() * n + 32);
+            if rng.coin() {
+                b.extend(amf::encode(&[amf::s("onStatus"), amf::num(0.0), V::Null]));
+            }
+            if rng.coin() {
+                b.extend_from_slice(&[0x0A]);
+                b.extend_from_slice(&(n as u32).to_be_bytes());
+            }
+            for _ in 0..n {
+                b.extend_from_slice(unit);
+            }
+            b
+        }
         7 => {
             // declared lengths / counts with nothing behind
             match rng.below(4) {
